@@ -159,3 +159,57 @@ def util_dec(prog):
                       'decimal digit step is wrong: %r' % (bad,) if bad else '', 'n*10 + digit for 0..9'))
     # a vanished decimal loop leaves the rule below its floor (analysis broken), it is not by itself a violation
     return RuleResult('UTIL-DEC', obs, 5, {})
+
+
+def util_order(prog):
+    """UTIL-ORDER: in UtilContext::get_num a number that ends in `h` is hexadecimal whatever it starts with.  Every
+    spelling that is recognised by its first characters *before* the `h`-suffix test must contain a character that is not
+    a hexadecimal digit (`0x`: the x); a prefix made of hex digits only (`0b`, `0d`) is also the beginning of a legal
+    `...h` literal, which would then be read in the other base (0b10h = 0xb10 read as binary 10)."""
+    fns = [f for f in prog.fns.values() if f.q.split('(')[0] == 'UtilContext::get_num']
+    if not fns:
+        raise AnalysisBroken('UTIL-ORDER: UtilContext::get_num not found')
+    fn = fns[0]
+    anchor = None
+    prefixes = []
+    for n in sorted(fn.nodes.values(), key=lambda x: x['i']):
+        if n['k'] != 'IfStmt':
+            continue
+        cond = [k for k in kids(n) if k is not None][0]
+        eqs = []
+        other = False
+        st = [strip(cond)]
+        while st:
+            x = strip(st.pop())
+            if x['k'] == 'BinaryOperator' and x.get('op') == '&&':
+                st.extend(kids(x))
+            elif x['k'] == 'BinaryOperator' and x.get('op') == '==' and const(kids(x)[1]) is not None:
+                l = strip(kids(x)[0], casts=True)
+                if l['k'] == 'ArraySubscriptExpr' and show(kids(l)[0]).endswith('token'):
+                    eqs.append((kids(l)[1], const(kids(x)[1])))
+                else:
+                    other = True
+            else:
+                other = True
+        if not eqs or other:
+            continue
+        if len(eqs) == 1 and const(eqs[0][0]) is None and eqs[0][1] == ord('h'):
+            anchor = n
+            break
+        if all(const(i) is not None for i, _ in eqs):
+            prefixes.append((n, sorted((const(i), c) for i, c in eqs)))
+    if anchor is None:
+        raise AnalysisBroken("UTIL-ORDER: the `token[s-1] == 'h'` test of get_num was not found")
+    obs = []
+    hexd = set(b'0123456789abcdefABCDEF')
+    for n, eqs in prefixes:
+        chars = ''.join(chr(c) for _, c in eqs)
+        ok = any(c not in hexd for _, c in eqs)
+        obs.append(Ob('UTIL-ORDER', fn.file, n['l'], fn.q, 'prefix:%s' % chars, DISCHARGED if ok else VIOLATED,
+                      '' if ok else 'the spelling `%s...` is recognised before the `h`-suffix test (line %d) and consists of hexadecimal '
+                      'digits only: `%s1h` is a legal hex number that is now read in the other base, so write/print address other '
+                      'bytes than the ones named' % (chars, anchor['l'], chars),
+                      'prefix `%s` contains a non-hex character, no `...h` literal starts with it' % chars, False))
+    obs.append(Ob('UTIL-ORDER', fn.file, anchor['l'], fn.q, 'h-suffix-test', DISCHARGED, '',
+                  '%d prefix spellings are tested before the h-suffix test' % len(prefixes), False))
+    return RuleResult('UTIL-ORDER', obs, 2, {})
